@@ -193,6 +193,10 @@ class C07(Prop):
                         cur.execute("select 1")
                     elif w == "cursor_execute":
                         conn.cursor().execute("select 1")
+                    elif w == "execute_nop":
+                        cur.execute("call vt_proc()")
+                    elif w == "cursor_execute_nop":
+                        conn.cursor().execute("call vt_proc()")
                     elif w == "commit":
                         conn.commit()
                     elif w == "rollback":
